@@ -162,10 +162,18 @@ Proof.
 Qed.
 
 (** the stream of generate_identifier *)
+Lemma gen_stream_from_S n p :
+  gen_stream_from (S n) p =
+  match search (fun q => valid_ident (nth_raw q)) search_bits p with
+  | Some q => nth_raw q :: gen_stream_from n (q + 1)
+  | None => []
+  end.
+Proof. reflexivity. Qed.
+
 Lemma gen_stream_from_spec : forall n p x,
   In x (gen_stream_from n p) -> valid_ident x = true /\ exists q, p <= q /\ x = nth_raw q.
 Proof.
-  induction n as [|n IH]; intros p x H; cbn [gen_stream_from] in H; [contradiction|].
+  induction n as [|n IH]; intros p x H; [contradiction|]. rewrite gen_stream_from_S in H.
   destruct (search (fun q => valid_ident (nth_raw q)) search_bits p) as [q|] eqn:E; [|contradiction].
   apply search_spec in E as [G L]. destruct H as [H|H].
   - subst x. split; [exact G|]. exists q. split; [exact L | reflexivity].
@@ -174,7 +182,7 @@ Qed.
 
 Lemma gen_stream_from_nodup : forall n p, NoDup (gen_stream_from n p).
 Proof.
-  induction n as [|n IH]; intros p; cbn [gen_stream_from]; [constructor|].
+  induction n as [|n IH]; intros p; [constructor|]. rewrite gen_stream_from_S.
   destruct (search (fun q => valid_ident (nth_raw q)) search_bits p) as [q|] eqn:E; [|constructor].
   constructor; [|apply IH].
   intros H. apply gen_stream_from_spec in H as [_ [q' [L E']]].
